@@ -117,12 +117,12 @@ fn plan_for(powers: &[u64], heights: usize) -> ChainPlan {
 // ---------------------------------------------------------------------------------------
 // light
 
-// entry kinds of the light part: 0 = V, 1 = F, 2 = O, 3 = N, 4 = A
+// entry kinds of the light part: 0 = V, 1 = F, 2 = O, 3 = N, 4 = A, 5 = S
 
 struct LightBase {
     b: Built,
-    /// per slot: the five entry variants
-    variants: Vec<[CommitSig; 5]>,
+    /// per slot: the six entry variants
+    variants: Vec<[CommitSig; 6]>,
     /// power per slot
     slot_power: Vec<u64>,
 }
@@ -137,12 +137,16 @@ fn light_base(keys: &Keys, powers: &[u64]) -> LightBase {
         let me = keys.get(*id);
         let other = if n > 1 { keys.get(b.order[(idx + 1) % n]) } else { keys.get(100) };
         let v = commit_entry(&b.eh, &me, idx, VoteKind::Commit);
+        // S: the validator's own address and timestamp, but a (genuine) signature of the
+        // other validator's key over the very same canonical vote
+        let usurper = Val { id: me.id, sk: other.sk.clone(), pk: me.pk, addr: me.addr };
         variants.push([
             v.clone(),
             forged(&v),
             commit_entry(&b.eh, &other, idx, VoteKind::Commit),
             commit_entry(&b.eh, &me, idx, VoteKind::Nil),
             CommitSig::BlockIdFlagAbsent,
+            commit_entry(&b.eh, &usurper, idx, VoteKind::Commit),
         ]);
         slot_power.push(b.power_of(*id).unwrap());
     }
@@ -405,7 +409,10 @@ fn main() {
         let (lmax, l123) = if thorough { (8, 5) } else { (6, 4) };
         for n in 1..=lmax {
             for pv in power_vectors(n, l123, thorough) {
-                jobs.push(Job::Light(pv, vec![0, 1, 2, 3, 4]));
+                // the largest n of each tier without the O kind (which the address check refuses
+                // before any signature is looked at), all six kinds below
+                let syms = if n == lmax { vec![0, 1, 5, 3, 4] } else { vec![0, 1, 2, 3, 4, 5] };
+                jobs.push(Job::Light(pv, syms));
             }
         }
         if thorough {
@@ -450,7 +457,7 @@ fn main() {
         &ctx,
         rep,
         Spec {
-            rule: "LIGHT (through ExtendedHeader::validate, everything but the commit entries valid): n validators (quick 1..6, thorough 1..8) x power vectors {all of {1,2,3}^n for n<=4 (thorough 5), ramp 1..n, 100 each, 199/1/1/99.., 99/1/1/199.., one validator holding MAX_TOTAL-(n-1)} x every assignment of {V valid commit, F forged commit, O commit signed by another validator under that validator's address, N honest nil vote, A absent} to the n entries (5^n), plus for assignments over {V,A}: last entry dropped / duplicated / commit height+1; thorough adds n=9..10 with every signer subset and the non-signers uniformly F, O, N or A. TRUSTING (through trusted.verify(untrusted), non-adjacent, chain id and times right): nt trusted validators (quick 1..3 and 4, thorough 1..4 and 5) x power vectors x every sequence of length 0..=nt+1 (quick nt=4: 0..=3; nt=5: 0..=5) over {valid / forged / nil entry of each trusted validator, valid entry of a stranger, absent} — includes every double listing in both orders. distinct = (part, powers, assignment); non-trivial = signing power within one unit of the threshold, or a duplicated validator",
+            rule: "LIGHT (through ExtendedHeader::validate, everything but the commit entries valid): n validators (quick 1..6, thorough 1..8) x power vectors {all of {1,2,3}^n for n<=4 (thorough 5), ramp 1..n, 100 each, 199/1/1/99.., 99/1/1/199.., one validator holding MAX_TOTAL-(n-1)} x every assignment of {V valid commit, F forged commit, O entry of another validator (its address, its valid signature), S own address but signature by another validator's key, N honest nil vote, A absent} to the n entries (6^n; the largest n of the tier without O: 5^n), plus for assignments over {V,A}: last entry dropped / duplicated / commit height+1; thorough adds n=9..10 with every signer subset and the non-signers uniformly F, O, N or A. TRUSTING (through trusted.verify(untrusted), non-adjacent, chain id and times right): nt trusted validators (quick 1..3 and 4, thorough 1..4 and 5) x power vectors x every sequence of length 0..=nt+1 (quick nt=4: 0..=3; nt=5: 0..=5) over {valid / forged / nil entry of each trusted validator, valid entry of a stranger, absent} — includes every double listing in both orders. distinct = (part, powers, assignment); non-trivial = signing power within one unit of the threshold, or a duplicated validator",
             assumptions: &[
                 "verify_commit_light / verify_commit_light_trusting are private; they are observed through validate() / verify(), whose other checks are satisfied by construction (self-checked base header)",
                 "VERIF_SEED selects key material and hash payloads only",
